@@ -16,6 +16,7 @@ EXTENDS Integers, Sequences, FiniteSets
 
 Range(s) == { s[i] : i \in DOMAIN s }
 Max(a, b) == IF a > b THEN a ELSE b
+Force(s) == SubSeq(s, 1, Len(s))      \* evaluate a lazily built sequence once
 
 NoPrio == 1000      \* "no handler has stopped the event yet" / "no handler ran yet"
 
@@ -26,7 +27,7 @@ Ev0 == [name |-> "", ch |-> "", prio |-> 0, fseq |-> 0, root |-> 0, origin |-> 0
         results |-> <<>>, nraise |-> 0, gens |-> 0, ngen |-> 0,
         nsucc |-> 0, nfail |-> 0, nexc |-> 0, ncompl |-> 0, ndone |-> 0,
         disproot |-> 0, skipped |-> FALSE, proj |-> <<>>,
-        mig |-> 0]                \* how often the event moved to another manager's queue (register)
+        mig |-> <<>>]             \* ids of the register() operations that moved the event to another queue
 
 S0(G) == [par    |-> [c \in 1..Len(G.chan) |-> c],
           pend   |-> {},
@@ -68,13 +69,13 @@ Dispatching(S) == { e \in DOMAIN S.ev : S.ev[e].st = 2 }
 (* after a structural change, handlers whose matching status changed for an
    event that is in the middle of its dispatch may or may not still run *)
 Reslack(G, S0_, S1) ==
-  [S1 EXCEPT !.ev = [e \in DOMAIN S1.ev |->
+  [S1 EXCEPT !.ev = Force([e \in DOMAIN S1.ev |->
       IF S1.ev[e].st = 2
       THEN LET r  == S1.ev[e].disproot
                m0 == Matching(G, S0_, r, S1.ev[e].name, S1.ev[e].ch)
                m1 == Matching(G, S1, r, S1.ev[e].name, S1.ev[e].ch)
            IN [S1.ev[e] EXCEPT !.slack = @ \cup ((m0 \ m1) \cup (m1 \ m0))]
-      ELSE S1.ev[e]],
+      ELSE S1.ev[e]]),
      !.structops = @ + 1]
 
 -----------------------------------------------------------------------------
@@ -107,8 +108,8 @@ Before(S, a, b) == \/ S.ev[a].prio < S.ev[b].prio
 DoReg(G, S, c, p) ==
   LET r  == Root(S, p)
       S1 == [S EXCEPT !.par[c] = p,
-                      !.ev = IF r = c THEN @ ELSE [e \in DOMAIN S.ev |->
-                                 IF e \in Range(S.q[c]) THEN [S.ev[e] EXCEPT !.mig = @ + 1] ELSE S.ev[e]],
+                      !.ev = IF r = c THEN @ ELSE Force([e \in DOMAIN S.ev |->
+                                 IF e \in Range(S.q[c]) THEN [S.ev[e] EXCEPT !.mig = Append(@, S.structops + 1)] ELSE S.ev[e]]),
                       !.q[r] = IF r = c THEN @ ELSE @ \o S.q[c],
                       !.q[c] = IF r = c THEN @ ELSE <<>>,
                       !.nreg = @ \cup {<<c, p, Cardinality({t \in S.nreg : t[1] = c /\ t[2] = p}) + 1>>}]
@@ -237,6 +238,9 @@ VendFails(G, S, ln) ==
        \cup (IF (ln.x = 1) # (Len(S.ev[e].results) > 1) THEN {<<"C04", "value_shape">>} ELSE {})
 
 (* call / wait *)
+RECURSIVE SumSeq(_)
+SumSeq(s) == IF s = <<>> THEN 0 ELSE Head(s) + SumSeq(Tail(s))
+ValId(res) == IF Len(res) = 0 THEN 0 ELSE IF Len(res) = 1 THEN res[1] ELSE SumSeq(res) * 1000 + Len(res)
 WaitOf(S, e, h) == { w \in S.waits : w.e = e /\ w.h = h }
 ResumeFails(G, S, ln) ==
   LET ws == WaitOf(S, ln.e, ln.h) IN
@@ -249,6 +253,7 @@ ResumeFails(G, S, ln) ==
        ELSE IF on = 0 \/ ~Known(S, on) THEN {}
        ELSE (IF ~Finished(S, on) /\ S.ev[on].nraise = 0 THEN {<<"C06", "resume_early">>} ELSE {})
             \cup (IF Finished(S, on) /\ (ln.f = 1) # (S.ev[on].nraise > 0) THEN {<<"C06", "error_flag">>} ELSE {})
+            \cup (IF Finished(S, on) /\ ln.x # 0 /\ ln.v # ValId(S.ev[on].results) THEN {<<"C06", "value">>} ELSE {})
 
 Fails(G, S, ln) ==
   CASE ln.k = "fire"   -> FireFails(G, S, ln)
@@ -290,8 +295,9 @@ ApplyDisp(G, S, ln) ==
               b  == IF newpass THEN Range(S.q[c]) ELSE S.batch[c]
               S1 == [S EXCEPT !.batch[c] = b \ {e},
                               !.q[c] = IF newpass THEN <<>> ELSE @]
+              S2 == IF S.ev[e].name = "generate_events" THEN [S1 EXCEPT !.ticks = @ + 1] ELSE S1
           IN IF ln.f = 1 THEN [S1 EXCEPT !.ev[e].skipped = TRUE, !.ev[e].cancelled = TRUE]
-             ELSE [S1 EXCEPT !.ev[e].st = 2, !.ev[e].disproot = c,
+             ELSE [S2 EXCEPT !.ev[e].st = 2, !.ev[e].disproot = c,
                              !.ev[e].expect = Matching(G, S, c, S.ev[e].name, S.ev[e].ch)]
 
 ApplyDend(G, S, ln) ==
@@ -326,7 +332,6 @@ ApplyOp(G, S, ln) ==
 ApplyApi(G, S, ln) ==
   CASE ln.n \in {"reg", "unreg", "addh", "rmh"} -> StructOp(G, S, ln)
     [] ln.n = "cancel" -> IF Known(S, ln.e) /\ S.ev[ln.e].st = 0 THEN [S EXCEPT !.ev[ln.e].cancelled = TRUE] ELSE S
-    [] ln.n = "tick"   -> [S EXCEPT !.ticks = @ + 1]
     [] OTHER -> S
 
 ApplyYld(G, S, ln) ==
@@ -364,11 +369,18 @@ Apply(G, S, ln) ==
     [] OTHER -> S
 
 (* first failing clause per property *)
-Props == {"C01", "C02", "C04", "C05", "C06", "C07", "M"}
-Bad0 == [p \in Props |-> <<"", 0>>]
+(* NOTE for TLC: [x \in D |-> e] is evaluated lazily on every application; a chain of
+   such constructors built while folding over lines re-evaluates exponentially.  Verdicts are
+   therefore kept in a record (eager), and rebuilt sequences are forced with Force().        *)
+Bad0 == [C01 |-> <<"", 0>>, C02 |-> <<"", 0>>, C04 |-> <<"", 0>>, C05 |-> <<"", 0>>,
+         C06 |-> <<"", 0>>, C07 |-> <<"", 0>>, M |-> <<"", 0>>]
+Upd1(bad, fails, l, p) ==
+  IF bad[p][1] # "" THEN bad[p]
+  ELSE IF \E f \in fails : f[1] = p THEN <<(CHOOSE f \in fails : f[1] = p)[2], l>>
+  ELSE bad[p]
 UpdBad(bad, fails, l) ==
-  [p \in Props |-> IF bad[p][1] # "" THEN bad[p]
-                   ELSE IF \E f \in fails : f[1] = p
-                        THEN <<(CHOOSE f \in fails : f[1] = p)[2], l>>
-                        ELSE bad[p]]
+  IF fails = {} THEN bad
+  ELSE [C01 |-> Upd1(bad, fails, l, "C01"), C02 |-> Upd1(bad, fails, l, "C02"), C04 |-> Upd1(bad, fails, l, "C04"),
+        C05 |-> Upd1(bad, fails, l, "C05"), C06 |-> Upd1(bad, fails, l, "C06"), C07 |-> Upd1(bad, fails, l, "C07"),
+        M |-> Upd1(bad, fails, l, "M")]
 =============================================================================
